@@ -32,6 +32,24 @@ def rank_glue(env, m, n, explicit_tol=False):
         r = Ut.rank(A)
         env.holds('rank within 0..min(m,n)', 0 <= r <= min(m, n))
         env.holds('rank(A^H) = rank(A)', Ut.rank(Ut.quat_hermitian(A)) == r)
+        # real-library battery (tolerance-free integer clauses) on rank-deficient products L R of genuinely non-commuting quaternion
+        # factors, strongly rectangular shapes included (seeded change C11-e: a fast path for max(m,n) >= 2 min(m,n) that used the plain
+        # transpose): rank = r for A, A^H; left/right multiplication by an invertible matrix keeps it; null spaces have n - r / m - r columns
+        import numpy as np
+        rs = np.random.RandomState(3)
+        Af = env.quaternion.as_float_array(A)
+        for (M, N, rk) in [(2, 4, 1), (2, 5, 1), (3, 6, 2), (3, 7, 1), (4, 2, 1), (6, 3, 2), (3, 3, 2), (4, 5, 3)]:
+            L, Rt = rs.randn(M, rk, 4), rs.randn(rk, N, 4)
+            L[0, 0, :] += Af[0, 0, :] if np.all(np.isfinite(Af[0, 0, :])) and np.max(np.abs(Af[0, 0, :])) < 1e3 else 0.0
+            B = Ut.quat_matmat(env.quaternion.as_quat_array(L), env.quaternion.as_quat_array(Rt))
+            tag = '[battery %dx%d rank %d] ' % (M, N, rk)
+            env.holds(tag + 'rank(A) = number of non-negligible singular values', Ut.rank(B) == rk)
+            env.holds(tag + 'rank(A^H) = rank(A)', Ut.rank(Ut.quat_hermitian(B)) == rk)
+            G = env.quaternion.as_quat_array(rs.randn(M, M, 4) + 3 * np.eye(M)[:, :, None] * np.array([1.0, 0, 0, 0]))
+            env.holds(tag + 'rank(G A) = rank(A) for invertible G', Ut.rank(Ut.quat_matmat(G, B)) == rk)
+            Nr = Ut.quat_null_space(B, side='right')
+            Nl = Ut.quat_null_space(B, side='left')
+            env.holds(tag + 'right null space has n - rank columns, left has m - rank', Nr.shape[1] == N - rk and Nl.shape[1] == M - rk)
         return
     calls = []
     stub, U, s, V = _svd_stub(env, m, n, calls)
